@@ -263,6 +263,30 @@ def run_property(prop, tier, seed):
         if fd["case"] not in ACTIVE_CASES.setdefault(fd["obligation"], []):
             ACTIVE_CASES[fd["obligation"]].append(fd["case"])
     results = verify_functions(prop.FUNCTIONS, prop.CONTRACT_MODULES, timeout_ms, active_cases=active_cases)
+    # ---- closure: a caller is checked against its callees' CONTRACTS, so every contract used that way has to be
+    #      discharged in this very check -- with ALL its clauses, whatever property they are tagged for (the call site
+    #      assumed all of them).  Functions used through a summary stay listed assumptions.
+    closure_fns = []
+    if not os.environ.get("VERIF_NO_CLOSURE") and not getattr(prop, "NO_CLOSURE", False):
+        from pyvc.contracts import REGISTRY as _REG
+        for cm in prop.CONTRACT_MODULES:
+            importlib.import_module(cm)
+        seen = set(prop.FUNCTIONS)
+        frontier = set(u for r in results for u in r.get("used_contracts", [])) - seen
+        while frontier:
+            seen |= frontier
+            # a callee used through a SUMMARY contributes no assumed clause (the summary itself is a listed assumption):
+            # only contracts whose post-conditions were assumed at a call site are followed
+            batch = [q for q in sorted(frontier) if _REG.get(q) is not None and getattr(_REG.get(q), "pre_builder", None) is not None
+                     and _REG.get(q).summary_fn is None]
+            if not batch:
+                break
+            rs = verify_functions(batch, prop.CONTRACT_MODULES, timeout_ms, active_cases=active_cases)
+            for r in rs:
+                r["closure"] = True
+            results += rs
+            closure_fns += batch
+            frontier = set(u for r in rs for u in r.get("used_contracts", [])) - seen
     results += run_lemmas(prop, None)
     tags = getattr(prop, "TAGS", (pid,))
     n_ob = n_dis = 0
@@ -299,7 +323,7 @@ def run_property(prop, tier, seed):
                 vacuity.append("unreachable: " + cname)
         cnt = 0
         for ob in r["obligations"]:
-            if not relevant(ob, tags):
+            if not relevant(ob, tags) and not r.get("closure"):
                 continue
             cnt += 1
             n_ob += 1
@@ -325,7 +349,8 @@ def run_property(prop, tier, seed):
                 undecided_obs.append((ob, r["function"]))
         if cnt == 0:
             vacuity.append("no obligations generated for %s" % r["function"])
-        fn_report.append({"function": r["function"], "file": r.get("file"), "lines": r.get("lines"),
+        fn_report.append({"function": r["function"], "role": "callee contract used by the property's functions, discharged here with all its clauses"
+                          if r.get("closure") else "listed for the property", "file": r.get("file"), "lines": r.get("lines"),
                           "paths": r.get("paths"), "obligations": cnt, "solver_s": r.get("solver_s"),
                           "wall_s": r.get("wall_s"), "call_edges": r.get("edges")})
     # ---- candidates (solver undecided, weakened query sat): a violation only if the real code reproduces it
@@ -468,6 +493,8 @@ def run_property(prop, tier, seed):
     replay_dir = os.path.join(EVDIR, "replay")
     os.makedirs(replay_dir, exist_ok=True)
     finding_by_key = {}
+    for fd in load_known_findings():
+        finding_by_key.setdefault((fd["obligation"], fd["case"]), fd)
     for fd in findings:
         finding_by_key[(fd["obligation"], fd["case"])] = fd
     printed = set()
